@@ -16,7 +16,7 @@ import numpy
 from . import tlc
 
 DT = {'b': bool, 'i': int, 'f': float, 'c': complex}
-ARGNAMES = {1: 'a1', 2: 'a2', 3: 'a3', 4: 'a4', 5: 'a5', 6: 'a6', 7: 'a7', 8: 'a8', 9: 'a9', 10: 'a10', 11: 'a11', 12: 'a12', 13: 'a13'}
+ARGNAMES = {1: 'a1', 2: 'a2', 3: 'a3', 4: 'a4', 5: 'a5', 6: 'a6', 7: 'a7', 8: 'a8', 9: 'a9', 10: 'a10', 11: 'a11', 12: 'a12', 13: 'a13', 14: 'a14'}
 
 
 def build(nodes):
@@ -85,6 +85,14 @@ def build(nodes):
             r = ev._SizesToOffsets(A[0])
         elif op == 'Find':
             r = ev.Find(A[0])       # the second operand of the model node is the length Sum(BoolToInt(where)), implied here
+        elif op == 'Monomial':
+            # d = values, then per factor the argument followed by one index node per axis of the argument
+            args, indices, i = [], [], 1
+            while i < len(A):
+                args.append(A[i])
+                indices.append(tuple(A[i + 1:i + 1 + A[i].ndim]))
+                i += 1 + A[i].ndim
+            r = ev.Monomial(A[0], tuple(args), tuple(indices), tuple(p))
         elif op == 'PolyMul':
             import nutils_poly
             r = ev.PolyMul(A[0], A[1], tuple((nutils_poly.MulVar.Left, nutils_poly.MulVar.Right, nutils_poly.MulVar.Both)[v] for v in p))
@@ -97,6 +105,11 @@ def build(nodes):
             r = ev.Einsum(tuple(A), tuple(tuple(q) for q in dec[1:]), tuple(dec[0]))
         elif op == 'LoopSum':
             idx = ev.loop_index('l{}'.format(p[0]), c(p[1]))
+            r = ev.LoopSum(idx.loop_id, idx.length, A[0], A[0].shape)
+        elif op == 'LoopIndexN':    # loop whose length is the value of a scalar integer node (e.g. InRange of an int argument)
+            r = ev.loop_index('l{}'.format(p[0]), A[0])
+        elif op == 'LoopSumN':
+            idx = ev.loop_index('l{}'.format(p[0]), A[1])
             r = ev.LoopSum(idx.loop_id, idx.length, A[0], A[0].shape)
         elif op == 'LoopConcat':
             idx = ev.loop_index('l{}'.format(p[0]), c(p[1]))
@@ -207,7 +220,10 @@ def export(roots):
             name = str(a.loop_id)
             if not (name.startswith('l') and name[1:].isdigit()):
                 raise Unsupported('loop id ' + name)
-            r = add('LoopIndex', [], [int(name[1:]), cint(a.length)], a)
+            try:
+                r = add('LoopIndex', [], [int(name[1:]), cint(a.length)], a)
+            except Unsupported:
+                r = add('LoopIndexN', [visit(a.length)], [int(name[1:])], a)
         elif T == 'InsertAxis':
             try:
                 r = add('InsertAxis', [visit(a.func)], [cint(a.length)], a)
@@ -258,6 +274,11 @@ def export(roots):
             r = add('PolyNCoeffs', [visit(a.degree)], [a.nvars], a)
         elif T == 'Legendre':
             r = add('Legendre', [visit(a.x)], [a.degree], a)
+        elif T == 'Monomial':
+            d = [visit(a.values)]
+            for arg, idx in zip(a.args, a.indices):
+                d += [visit(arg)] + [visit(i) for i in idx]
+            r = add('Monomial', d, list(a.powers), a)
         elif T == 'SearchSorted':
             r = add('SearchSorted', [visit(a.arg), visit(a.array)] + ([visit(a.sorter)] if a.sorter is not None else []), [dict(left=0, right=1)[a.side]], a)
         elif T in ('ArgSort',):
@@ -283,7 +304,10 @@ def export(roots):
             name = str(a.loop_id)
             if not (name.startswith('l') and name[1:].isdigit()):
                 raise Unsupported('loop id ' + name)
-            r = add('LoopSum', [visit(a.func)], [int(name[1:]), cint(a.length)], a)
+            try:
+                r = add('LoopSum', [visit(a.func)], [int(name[1:]), cint(a.length)], a)
+            except Unsupported:
+                r = add('LoopSumN', [visit(a.func), visit(a.length)], [int(name[1:])], a)
         elif T == 'LoopConcatenate':
             name = str(a.loop_id)
             if not (name.startswith('l') and name[1:].isdigit()):
@@ -308,18 +332,18 @@ def export(roots):
 # ---------------------------------------------------------------------------
 # environments
 
-ARGSH = {1: [2], 2: [2, 2], 3: [], 4: [3], 5: [2], 6: [2], 7: [2, 2, 2], 8: [3, 3], 9: [4], 10: [2], 11: [], 12: [2, 2], 13: [6]}
-ARGDT = {1: float, 2: float, 3: float, 4: float, 5: int, 6: bool, 7: float, 8: float, 9: float, 10: complex, 11: complex, 12: complex, 13: float}
+ARGSH = {1: [2], 2: [2, 2], 3: [], 4: [3], 5: [2], 6: [2], 7: [2, 2, 2], 8: [3, 3], 9: [4], 10: [2], 11: [], 12: [2, 2], 13: [6], 14: []}
+ARGDT = {1: float, 2: float, 3: float, 4: float, 5: int, 6: bool, 7: float, 8: float, 9: float, 10: complex, 11: complex, 12: complex, 13: float, 14: int}
 
 # integer data per argument id (flat); chosen to avoid ties/kinks where possible.  Complex arguments (10-12) carry
 # 2 * size integers: the real parts followed by the imaginary parts (ArraySem!ArgArr recognises them by that length)
 ENVS = [
     {1: [1, 2], 2: [1, 2, 3, 5], 3: [2], 4: [1, 2, 3], 5: [1, 0], 6: [1, 0], 7: [1, 2, 3, 4, 5, 6, 7, 9], 8: [2, 1, 0, 1, 3, 1, 0, 1, 2], 9: [1, 2, 3, 4],
-     10: [1, 2, 2, -1], 11: [2, 1], 12: [1, 2, 0, 1, 1, 0, -1, 2], 13: [1, 2, -1, 3, 0, 2]},
+     10: [1, 2, 2, -1], 11: [2, 1], 12: [1, 2, 0, 1, 1, 0, -1, 2], 13: [1, 2, -1, 3, 0, 2], 14: [2]},
     {1: [-2, 3], 2: [2, -1, 1, 3], 3: [-3], 4: [-1, 3, 2], 5: [0, 1], 6: [0, 1], 7: [-1, 2, -3, 1, 3, -2, 2, 1], 8: [1, -2, 3, 2, 1, -1, -3, 1, 2], 9: [-2, 1, 3, -1],
-     10: [-1, 3, 1, 4], 11: [-1, 2], 12: [2, -1, 1, 1, 0, 1, 2, -1], 13: [-2, 1, 3, 0, -1, 2]},
+     10: [-1, 3, 1, 4], 11: [-1, 2], 12: [2, -1, 1, 1, 0, 1, 2, -1], 13: [-2, 1, 3, 0, -1, 2], 14: [0]},
     {1: [3, -1], 2: [-3, 1, 2, -2], 3: [-4], 4: [2, -2, 1], 5: [1, 1], 6: [1, 1], 7: [2, -1, 1, 3, -2, 1, -3, 2], 8: [-1, 3, 2, 1, -2, 3, 2, 1, -3], 9: [2, -3, -1, 4],
-     10: [0, -2, -3, 1], 11: [3, -4], 12: [-1, 1, 2, 0, 2, -1, 0, 3], 13: [3, -1, 0, 2, 1, -3]},
+     10: [0, -2, -3, 1], 11: [3, -4], 12: [-1, 1, 2, 0, 2, -1, 0, 3], 13: [3, -1, 0, 2, 1, -3], 14: [1]},
 ]
 
 
@@ -364,7 +388,7 @@ def args_used(nodes):
 
 
 def nloops(nodes):
-    return max([n['p'][0] for n in nodes if n['op'] in ('LoopIndex', 'LoopSum', 'LoopConcat')] + [2])
+    return max([n['p'][0] for n in nodes if n['op'] in ('LoopIndex', 'LoopSum', 'LoopConcat', 'LoopIndexN', 'LoopSumN')] + [3])
 
 
 # ---------------------------------------------------------------------------
